@@ -216,13 +216,20 @@ def run_case(case, ctx):
         pre_data = w.arr.snap_data()
         before = protected(w)
         if trig == "lock":
-            first = ["sync", "scrub", "check", "fix", "status", "diff"][case["a"] % 6]
+            first = ["sync", "scrub", "check", "fix", "status", "diff", "list", "dup"][case["a"] % 8]
+            # commands that change no state have no state-changing call to pause at: they are held at one of their read-only opens
+            # of a content file (which every command reads only after taking the lock) instead
+            ro_holder = first in ("status", "diff", "list", "dup", "check") or (first == "scrub" and case["b"] % 2 == 0)
             gate = os.path.join(w.arr.root, "logs", "gate")
             k = 1 + case["b"] % 12
             arr = w.arr
             argv = [ctx.rel, "-c", arr.conf_path()] + arr.base_opts() + ([] if first in ("status", "diff") else []) + [first]
             env = dict(os.environ)
-            env.update({"LD_PRELOAD": ctx.shim, "VERIF_ROOT": arr.root, "VERIF_PAUSE": "%d:%s" % (k, gate)})
+            env.update({"LD_PRELOAD": ctx.shim, "VERIF_ROOT": arr.root})
+            if ro_holder:
+                env["VERIF_PAUSE_OPEN"] = "%d:%s" % ((case["b"] // 2) % 2, gate)
+            else:
+                env["VERIF_PAUSE"] = "%d:%s" % (k, gate)
             p1 = subprocess.Popen(argv, stdout=subprocess.PIPE, stderr=subprocess.PIPE, env=env, cwd=arr.root)
             t0 = time.time()
             waiting = False
@@ -242,7 +249,7 @@ def run_case(case, ctx):
             open(gate, "w").close()
             out1, err1 = p1.communicate(timeout=60)
             if r2.rc == 0:
-                return Outcome(ok=False, why="sync ran while %s (paused at its state-changing call %d) held the lock" % (first, k))
+                return Outcome(ok=False, why="sync ran while %s (paused at %s) held the lock" % (first, "a read of a content file" if ro_holder else "its state-changing call %d" % k))
             why = compare_protected(before, after)
             if why:
                 return Outcome(ok=False, why="sync refused for the lock but %s" % why)
